@@ -70,7 +70,7 @@ def fitsS (cenv : CEnv) (xenv : XEnv) : FKind → SVal → Bool
   | .exc, .exc _ => true
   | .optExc, .exc _ => true
   | .optExc, .none => true
-  | .evType, .evType c => importable cenv c
+  | .evType, .evType c => dget cenv c.typeQual == some c
   | _, _ => false
 
 def normS (xenv : XEnv) : SVal → SVal
@@ -102,7 +102,7 @@ theorem slot_roundtrip (cenv : CEnv) (xenv : XEnv) (k : FKind) (v : SVal) (h : f
     simp [decodeS, normS, hx]
   case optExc.none => exact ⟨.null, rfl, rfl⟩
   case evType.evType c =>
-    exact ⟨.str c.qual, rfl, by simp [decodeS, normS, (by simpa [importable] using h : dget cenv c.qual = some c)]⟩
+    exact ⟨.str c.typeQual, rfl, by simp [decodeS, normS, (by simpa using h : dget cenv c.typeQual = some c)]⟩
 
 
 /-! ### step results (members of `StepFunctionResult`) -/
